@@ -205,3 +205,42 @@ Proof.
   - exact (no_write_open_existing refs tr H).
   - exact (no_rename_remove_existing refs tr H).
 Qed.
+
+(* ---------- the validated relation on (bytes before, bytes after) ---------- *)
+Theorem check_append_rel_sound before after : check_append_rel before after = true <-> append_rel before after.
+Proof.
+  unfold check_append_rel, append_rel. split.
+  - destruct (footer_loc false before) as [loc|]; [|discriminate].
+    destruct (footer_loc false after) as [loc'|]; [|discriminate].
+    intros H. apply andb_true_iff in H. destruct H as [H1 H2]. exists loc, loc'.
+    repeat split; [now apply Nat.leb_le | destruct (bytes_eqb_spec (firstn loc after) (firstn loc before)); congruence].
+  - intros [loc [loc' [H1 [H2 [H3 H4]]]]]. rewrite H1, H2, H4. apply andb_true_iff. split.
+    + destruct (bytes_eqb_spec (firstn loc before) (firstn loc before)); congruence.
+    + now apply Nat.leb_le.
+Qed.
+
+(* every byte range that lay below the old footer start is unchanged: all existing row groups *)
+Theorem append_rel_old_slices before after : append_rel before after ->
+  exists loc, footer_loc false before = Some loc /\
+    forall off len, (off + len <= loc)%nat -> slice off len after = slice off len before.
+Proof.
+  intros [loc [loc' [H1 [H2 [H3 H4]]]]]. exists loc. split; [exact H1|]. intros off len Hol.
+  destruct (footer_loc_le _ _ H1) as [Lb _]. destruct (footer_loc_le _ _ H2) as [La _].
+  assert (E : forall f, (loc <= length f)%nat -> slice off len f = slice off len (firstn loc f)).
+  { intros f Hf. rewrite <- (firstn_skipn loc f) at 1. apply slice_app_l. rewrite firstn_length. lia. }
+  rewrite (E after) by lia. rewrite (E before) by lia. now rewrite H4.
+Qed.
+
+(* the model append is in the relation (witness) *)
+Theorem append_simple_in_rel data footer chunks footer' f' :
+  (N.of_nat (length footer) < 2 ^ 32)%N -> (N.of_nat (length footer') < 2 ^ 32)%N ->
+  (length footer <= length (concat chunks) + length footer')%nat ->
+  append_simple (framed data footer) chunks footer' = Some f' -> append_rel (framed data footer) f'.
+Proof.
+  intros Hs Hs' Hl A. rewrite (append_simple_framed data footer chunks footer' Hs Hl) in A. inversion A; subst f'.
+  exists (length data), (length (data ++ concat chunks)). repeat split.
+  - now apply footer_loc_framed.
+  - now apply footer_loc_framed.
+  - rewrite app_length. lia.
+  - unfold framed. rewrite <- app_assoc. now rewrite !firstn_app_exact.
+Qed.
